@@ -147,8 +147,21 @@ fn gen_value(t: &mut Tape, d: usize, uniq: &mut usize) -> E {
             _ => E::Int(t.pick(10) as i32),
         };
     }
-    match t.weighted(&[3, 5, 6]) {
+    match t.weighted(&[3, 5, 6, 3]) {
         0 => gen_value(t, 0, uniq),
+        3 => {
+            // the same heap value reached twice (shared, NOT cyclic): it renders in full each time
+            *uniq += 1;
+            let name = format!("s{}", uniq);
+            let shared = gen_value(t, d - 1, uniq);
+            let user = match t.pick(4) {
+                0 => E::Array(bx(E::Int(2 + t.pick(2) as i32)), bx(var(&name))),
+                1 => E::Object(None, vec![Member::Field("x".into(), var(&name)), Member::Field("a".into(), var(&name))]),
+                2 => E::Object(Some(bx(var(&name))), vec![Member::Field("f".into(), var(&name))]),
+                _ => E::Object(None, vec![Member::Field("p".into(), E::Array(bx(E::Int(2)), bx(var(&name)))), Member::Field("q".into(), var(&name))]),
+            };
+            E::Block(vec![E::Let(name, bx(shared)), user])
+        }
         1 => {
             // array with individually set elements
             let n = t.pick(4);
@@ -205,8 +218,11 @@ impl Property for C15 {
     fn id(&self) -> &'static str {
         "C15"
     }
+    fn fuzzable(&self) -> bool {
+        true
+    }
     fn rule(&self) -> String {
-        "cases: (exhaustive, bytecode level) every format string of length <= 5 (thorough: 6) over {~, \\, n, \", a, LF, é} in which escape scanning does not end inside an escape, each with 0-3 integer arguments, built with the independent writer and run in the VM; (exhaustive, source level) the subset the lexer admits, through the real parser and compiler; (random) nested arrays/objects to depth 5, empty array/object, parents of every kind, field names whose declaration order differs from byte-wise order, printed through several placeholder positions. oracle: own formatter (escapes, positional ~, mismatch fails without output, result null) and own renderer. non-trivial: a format with >=1 placeholder and >=1 escape, or a count mismatch, or a value of depth >=2 with >=2 fields out of order; distinct by (level, format, args) / source".into()
+        "cases: (exhaustive, bytecode level) every format string of length <= 5 (thorough: 6) over {~, \\, n, \", a, LF, é} in which escape scanning does not end inside an escape, each with 0-3 integer arguments, built with the independent writer and run in the VM; (exhaustive, source level) the subset the lexer admits, through the real parser and compiler; (random) nested arrays/objects to depth 5 incl. values that reach the same array/object twice (shared, acyclic), empty array/object, parents of every kind, field names whose declaration order differs from byte-wise order, printed through several placeholder positions. oracle: own formatter (escapes, positional ~, mismatch fails without output, result null) and own renderer. non-trivial: a format with >=1 placeholder and >=1 escape, or a count mismatch, or a value of depth >=2 with >=2 fields out of order; distinct by (level, format, args) / source".into()
     }
     fn assumptions(&self) -> Vec<String> {
         vec!["a format ending in a lone backslash has no stated meaning and is left out (count reported)".into()]
